@@ -19,6 +19,19 @@ claim('C39', 'E2', 'exhaustive enumeration of all pairs of publication lists (bo
       'Every pair of (recovered, buffered) publication lists up to length 3 over a 4-5 offset alphabet with filtered placeholders and duplicates is evaluated on the real function and compared with an independent reference merge and gap verdict.',
       'Bounded list length and offset range; publications differ only in offset / placeholder flag.')
 
+claim('C15', 'E2', 'exhaustive enumeration of filter trees (depth-bounded, all 13 leaf operators) x tag maps on the real Match/Validate/Hash against an independent evaluator, validator and exact decimal comparison',
+      'Every filter tree up to the stated depth/arity over the operator, key and value pools, with every tag map over the same pool, is evaluated on the real code and compared with an independent reference (math/big exact numerals).',
+      'Key/value pools are finite (edge numerals, empty strings, absent keys); trees up to depth 2-3.')
+claim('C33', 'E2', 'exhaustive enumeration of all byte strings over a frame alphabet up to a length bound (totality) and of publisher-built frames (round trip) on the real PUB/SUB decoders',
+      'Every byte string over the framing alphabet up to the stated length is decoded by the real extractPushData / map-broker parseMessage (no panic allowed), and every frame built exactly as the Go publisher builds it over small payload/offset/epoch domains must decode to its inputs.',
+      'Go-side framing only; the Lua builders are represented by a Go transcription of their format (no Redis, no Lua interpreter in the loop).')
+claim('C34', 'E2', 'exhaustive enumeration of channel names (bounded length over a brace/dot/colon alphabet) x prefixes x partitioning modes on the real key builders against an independent hash-tag + CRC16 slot function',
+      'For every channel name up to the stated length, prefix and partitioning configuration, all keys and the PUB/SUB channel of each script call built by the real Redis broker / map broker / presence key builders are hashed by an independent Redis-cluster slot function and must share one slot; extractChannel must invert messageChannelID.',
+      'Key builders are driven in-package without a Redis connection; which keys form one script call is transcribed from the call sites.')
+claim('C35', 'E2', 'complete enumeration of every precomputed partition count, tag and cluster size against an independent CRC16/XMODEM and Redis slot allocation',
+      'Complete: every bundled partition count x every cluster size up to it, every tag; slots distinct, equal to an independent CRC16 implementation, per-node counts differ by at most one.',
+      'Two slot-allocation models (even split and redis-cli --cluster create) stand in for a real cluster.')
+
 NA = {
  'C18': 'needs a Redis server (or faithful emulator) to execute the Redis broker; none exists in the sealed sandbox, so Redis-vs-Memory agreement cannot be explored',
  'C23': 'needs a Redis server (or faithful emulator) to execute the Redis map broker; none exists in the sealed sandbox',
